@@ -268,6 +268,63 @@ func crowdedPool(withNew bool, idle int, progs []string, bound, raceBound int) s
 	}
 }
 
+// isolation: two AtomicValues and two Pools used by two threads, one object each. Whatever one
+// thread does to its own objects must not show in the other's (state shared between instances).
+func isolationScenario() schk.Scenario {
+	type irec struct {
+		a, b   sync2.AtomicValue[int]
+		pa, pb sync2.Pool[*tok]
+		la, lb []int
+		gotB   *tok
+		backA  *tok
+	}
+	ta := &tok{id: 1}
+	return schk.Scenario{
+		Name: "isolation/two AtomicValues and two Pools", Bound: -1, RaceBound: 1,
+		Body: func(s *vrt.Sched) any {
+			r := &irec{}
+			s.Spawn("A", func() {
+				r.a.Store(1)
+				r.la = append(r.la, r.a.Load())
+				r.pa.Put(ta)
+				r.la = append(r.la, r.a.Swap(3))
+				r.backA = r.pa.Get()
+			})
+			s.Spawn("B", func() {
+				r.lb = append(r.lb, r.b.Load())
+				r.gotB = r.pb.Get()
+				r.b.Store(2)
+				if r.b.CompareAndSwap(2, 5) {
+					r.lb = append(r.lb, 1)
+				} else {
+					r.lb = append(r.lb, 0)
+				}
+				r.lb = append(r.lb, r.b.Load())
+			})
+			return r
+		},
+		Check: func(x *vrt.Exec, obs any) (*schk.Fail, string) {
+			r := obs.(*irec)
+			if x.Panic != "" || x.Deadlock {
+				return nil, "abnormal"
+			}
+			if fmt.Sprint(r.la) != "[1 1]" || r.a.Load() != 3 {
+				return schk.Failf("instance-isolation", "thread A alone uses register a: Store(1) Load Swap(3) read %v, finally %d; want [1 1], 3", r.la, r.a.Load()), ""
+			}
+			if fmt.Sprint(r.lb) != "[0 1 5]" {
+				return schk.Failf("instance-isolation", "thread B alone uses register b: Load, Store(2), CompareAndSwap(2,5), Load read %v; want [0 1 5]", r.lb), ""
+			}
+			if r.gotB != nil {
+				return schk.Failf("instance-isolation", "Get on pool b (nothing was ever Put there, New is nil) returned token %d, which was Put into pool a", r.gotB.id), ""
+			}
+			if r.backA != nil && r.backA != ta {
+				return schk.Failf("instance-isolation", "Get on pool a returned a token that was never Put there"), ""
+			}
+			return nil, fmt.Sprint(r.backA != nil)
+		},
+	}
+}
+
 func main() {
 	r := ev.Start("C18")
 	alpha := []call{{"Load", 0, 0}, {"Store", 1, 0}, {"Store", 2, 0}, {"Swap", 1, 0}, {"Swap", 2, 0}, {"CAS", 0, 1}, {"CAS", 1, 2}, {"CAS", 2, 1}}
@@ -343,6 +400,7 @@ func main() {
 			scs = append(scs, crowdedPool(true, idle, pp, ev.Pick(r, 1, 2), 1))
 		}
 	}
+	scs = append(scs, isolationScenario())
 	schk.WorkerExtra = func() map[string]int64 {
 		return map[string]int64{"distinct_histories_judged_by_porcupine": int64(lin.Distinct())}
 	}
